@@ -70,6 +70,8 @@ type bOurs struct {
 	// earlier batches; 0 = same as unfulfilled) and the offer of its sidecar ticket
 	Units          uint64 `json:"units"`
 	TicketPushAmt  int64  `json:"ticketPushAmt"`
+	// harness only: identity key of the sidecar ticket's recipient node ("" = not set)
+	SidecarNodeKey string `json:"sidecarNodeKey"`
 	TicketCapacity int64  `json:"ticketCapacity"`
 }
 
@@ -401,6 +403,13 @@ func (c *bCase) install(s *bSession) error {
 				return err
 			}
 			bid.SidecarTicket = &sidecar.Ticket{Offer: offer, Recipient: &sidecar.Recipient{MultiSigPubKey: k}}
+			if o.SidecarNodeKey != "" {
+				nk, err := bParseKey(o.SidecarNodeKey)
+				if err != nil {
+					return err
+				}
+				bid.SidecarTicket.Recipient.NodePubKey = nk
+			}
 		}
 		s.store.orders[n] = bid
 	}
@@ -1329,6 +1338,15 @@ func runBatch(r *Run) {
 	}
 	newSession(uint32(order.LatestBatchVersion))
 
+	// history: the earlier proposals of the session (same manager); part of every replay
+	var history []*bCase
+	type bReplay struct {
+		bCase
+		History []*bCase `json:"history"`
+	}
+	replayOf := func(c *bCase) interface{} {
+		return bReplay{bCase: *c, History: append([]*bCase{}, history...)}
+	}
 	evaluate := func(c *bCase, res bResult, fixed bool) {
 		canon, _ := json.Marshal(struct {
 			E bEnv
@@ -1345,7 +1363,7 @@ func runBatch(r *Run) {
 		}
 		r.Count(fmt.Sprintf("ndev/%d", len(c.Devs)))
 		if res.class == "panic" {
-			r.Violate("OrderMatchValidate panicked", r.Prop+"/panic", c)
+			r.Violate("OrderMatchValidate panicked", r.Prop+"/panic", replayOf(c))
 			return
 		}
 		if strings.HasPrefix(res.class, "unclassified") {
@@ -1353,10 +1371,10 @@ func runBatch(r *Run) {
 		}
 		// pending batch must be set iff accepted
 		if res.class == "ok" && res.pending != c.Msg.ID {
-			r.Violate("accepted batch is not the pending batch", r.Prop+"/pending", c)
+			r.Violate("accepted batch is not the pending batch", r.Prop+"/pending", replayOf(c))
 		}
 		if res.class != "ok" && res.pending != res.before {
-			r.Violate("a rejected batch replaced the pending batch", r.Prop+"/pending", c)
+			r.Violate("a rejected batch replaced the pending batch", r.Prop+"/pending", replayOf(c))
 		}
 		if res.class != "ok" {
 			return
@@ -1372,42 +1390,66 @@ func runBatch(r *Run) {
 		switch r.Prop {
 		case "C01":
 			if w := c.oracleC01(); w != "" {
-				r.Violate("accepted batch: "+w, "C01/terms", orig)
+				r.Violate("accepted batch: "+w, "C01/terms", replayOf(orig))
 			}
 		case "C02":
 			if w, key := c.oracleC02(); w != "" {
-				r.Violate("accepted batch: "+w, key, orig)
+				r.Violate("accepted batch: "+w, key, replayOf(orig))
 			}
 		case "C03":
 			if w := c.oracleC03(); w != "" {
-				r.Violate("accepted batch: "+w, "C03/funding", orig)
+				r.Violate("accepted batch: "+w, "C03/funding", replayOf(orig))
 			}
 		}
 	}
 
 	for _, raw := range r.FixedCases() {
-		var c bCase
-		if err := json.Unmarshal(raw, &c); err != nil {
+		var rc bReplay
+		if err := json.Unmarshal(raw, &rc); err != nil {
 			r.Notes = append(r.Notes, "bad fixed case: "+err.Error())
 			continue
 		}
+		c := rc.bCase
 		newSession(c.Env.Version)
+		// first the earlier proposals this manager saw
+		history = nil
+		for _, hc := range rc.History {
+			hc.run(r, sess)
+			history = append(history, hc)
+		}
 		res := c.run(r, sess)
 		r.Count("fixed")
 		evaluate(&c, res, true)
+		history = nil
 	}
 	if r.ReplayFile != "" {
 		return
 	}
 
 	g := &bGen{rng: r.Rng, search: r.Search, prop: r.Prop}
-	for i := 0; i < r.N; i++ {
+	var prev *bCase
+	for i := 0; i < r.N && len(r.Violations) < 20; i++ {
 		if i%8 == 0 {
 			newSession(g.pickVersion())
+			prev = nil
+			history = nil
 		}
-		c := g.genCase(sess.version, i)
+		var c *bCase
+		if prev != nil && r.Rng.Intn(3) == 0 {
+			// the auctioneer sends another prepare message for the SAME batch ID to the
+			// same long-lived manager (re-proposal), possibly after the database changed
+			c = g.reproposal(prev)
+			r.Count("reproposal")
+		} else {
+			c = g.genCase(sess.version, i)
+		}
 		res := c.run(r, sess)
 		evaluate(c, res, false)
+		if res.class == "ok" && len(c.Devs) > 0 && strings.HasPrefix(c.Devs[0], "reproposal") {
+			r.Count("acc/" + c.Devs[0])
+		}
+		prev = c
+		history = append(history, c)
 	}
 	sess.mgr.Stop()
 }
